@@ -405,6 +405,13 @@ func (dr *dirRepo) blobCreate(locked bool, opts ...BlobOpt) (BlobCreator, string
 			// the caller reports this as a successful upload, restart the GC grace period of the blob
 			now := time.Now()
 			_ = os.Chtimes(blobName, now, now)
+			if !locked {
+				dr.mu.Lock()
+			}
+			dr.timeMod = now
+			if !locked {
+				dr.mu.Unlock()
+			}
 			return nil, "", types.ErrBlobExists
 		}
 	}
